@@ -29,7 +29,7 @@ func (c14) ID() string { return "C14" }
 func (c14) Plan(tier string) fw.Plan {
 	p := fw.Plan{
 		Batches: 16, Cases: 2500, TimeoutSec: 900, Level: "exploration",
-		Rule: "one case = one graph of 1–8 linked blocks (keys incl. \"\", \"a/b\", \".\", \"..\", \"-1\", \"+1\", \"00\"; some links to missing blocks). (a) during an explore-all recursive walk and a random-selector walk every visit (P,N) is resolved from the root by Progress.Get, by Focus and by a harness-side stepwise descent (LookupBySegment one segment at a time, links loaded through the same link system); all must succeed and read out as N, and P is kept and resolved again after the walk has ended; (b) every position of the graph is enumerated from the nodes' own keys and indices (string- and int-built segments) and resolved the same three ways against a reference resolver over the abstract graph; (c) partially existing paths (valid prefix + missing key, index = length, negative and non-numeric segments on lists, one segment past a scalar, through a missing block) must fail exactly when the reference says so, with an error, never a panic; (d) for every path whose segments are non-empty and slash-free, ParsePath(p.String()) must give the same segments. Non-trivial: graph with ≥1 link and ≥6 positions; distinct by root hash.",
+		Rule:        "one case = one graph of 1–8 linked blocks (keys incl. \"\", \"a/b\", \".\", \"..\", \"-1\", \"+1\", \"00\"; some links to missing blocks). (a) during an explore-all recursive walk and a random-selector walk every visit (P,N) is resolved from the root by Progress.Get, by Focus and by a harness-side stepwise descent (LookupBySegment one segment at a time, links loaded through the same link system); all must succeed and read out as N, and P is kept and resolved again after the walk has ended; (b) every position of the graph is enumerated from the nodes' own keys and indices (string- and int-built segments) and resolved the same three ways against a reference resolver over the abstract graph; (c) partially existing paths (valid prefix + missing key, index = length, negative and non-numeric segments on lists, one segment past a scalar, through a missing block) must fail exactly when the reference says so, with an error, never a panic; (d) for every path whose segments are non-empty and slash-free, ParsePath(p.String()) must give the same segments. Non-trivial: graph with ≥1 link and ≥6 positions; distinct by root hash.",
 		Assumptions: []string{"reference resolver internal to this file: maps by key, lists by strconv base-10 index, links dereferenced after each step (as Get documents), nothing below scalars"},
 		MinEvents:   []string{"graphs", "visits_resolved", "positions_enumerated", "error_paths_checked", "string_roundtrips", "kept_paths_rechecked", "resolutions_through_links"},
 	}
@@ -251,6 +251,31 @@ func (c14) RunCase(c *fw.Ctx, rng *fw.RNG, batch, i int) {
 		base := keep[rng.Intn(len(keep))]
 		segs := pathSegs(base.p)
 		bad := []string{"nokey", strconv.Itoa(len(base.v.L)), "-1", "x", "", "0", "1", "00", "+0", "9999999999999999999", "-"}[rng.Intn(11)]
+		if rng.Chance(1, 3) {
+			// near-numeric segments: digits with one foreign byte below '0', above '9' or outside ASCII, in front,
+			// inside or behind; other spellings of numbers; numbers at the int64 edge (round-3 seed C14-8: a
+			// hand-rolled digit loop that folds bytes below '0' in as negative digits)
+			d := strconv.Itoa(rng.Intn(3))
+			f := []string{" ", "&", "'", ".", ",", "-", "+", "$", "%", "/"[:0] + "!", "*", ":", ";", "a", "e", "x", "_", "\x00", "\x7f", "\x80", "\xff", "\u0661", "\uff11"}[rng.Intn(23)]
+			switch rng.Intn(8) {
+			case 0:
+				bad = d + f
+			case 1:
+				bad = f + d
+			case 2:
+				bad = d + f + d
+			case 3:
+				bad = d + f + f
+			case 4:
+				bad = []string{"1e0", "0x1", "0b1", "0o1", "1.0", "1_0", "١", "１", "²", "0 ", " 0", "\t0", "0\n", "--1", "++1", "+-1"}[rng.Intn(16)]
+			case 5:
+				bad = []string{"9223372036854775807", "9223372036854775808", "-9223372036854775808", "18446744073709551615", "18446744073709551616", "4294967296", "4294967297", "-0", "+1", "01", "001", "0000000000000000000000001"}[rng.Intn(12)]
+			case 6:
+				bad = d + strings.Repeat(f, 1+rng.Intn(16))
+			default:
+				bad = strings.Repeat(d, 1+rng.Intn(17)) + f
+			}
+		}
 		if rng.Chance(1, 4) && len(segs) > 0 {
 			segs = segs[:rng.Intn(len(segs))]
 		}
